@@ -154,3 +154,15 @@ Theorem C13_cached_warm : forall id a opsa opsb,
   chk_C13 (SCached id a) a false (api_pair (SCached id a) opsa a opsb) = 0.
 Proof. exact CompWarmLawsFull.C13_cached_warm_checker. Qed.
 Print Assumptions C13_cached_warm.
+
+(* a ReplaceSource whose replacements are all EMPTY insertions behaves as its inner source: same
+   text; the stream and map() attribute every byte to the same file, line and name, with the
+   column refined (a cut piece is re-based to its own column where the recorded content matches) -
+   the extracted checker's relaxed verdict is 0 after arbitrary histories on both sides *)
+From RS Require Proofs.EmptyReplText Proofs.EmptyReplTree.
+Theorem C13_replace_only_empty_insertions : forall inner rs opsa opsb,
+  RStreamTree.rshape inner = true -> treeA (SReplace inner rs) = true ->
+  EmptyReplText.empties rs = true -> BoundsPos.tiny (SReplace inner rs) = true ->
+  chk_C13 (SReplace inner rs) inner true (api_pair (SReplace inner rs) opsa inner opsb) = 0.
+Proof. exact EmptyReplTree.C13_replace_empties. Qed.
+Print Assumptions C13_replace_only_empty_insertions.
